@@ -127,6 +127,9 @@ class InttypeStream(runner.Stream):
         dom = domain(a, b)
         if ans in ("panic", "abort", "hang"):
             return "the front end / code generator panicked"
+        if ans.startswith("vconst-differs"):
+            # harness/src/inttype.rs: the same constraint on a value assignment `k INTEGER (a..b) ::= ..`
+            return "the constant of a value assignment governed by the constraint has another type than a component: " + ans
         if dom == "beyond-i64":
             # a bound that is no i64: no type is generated at all (the property speaks about the
             # generated type); anything but a clean rejection would be a surprise
